@@ -82,6 +82,7 @@ func init() {
 			h("cont.H_Hist", noAs2(hist(1, 3, 2, 0, 1)), noAs2(hist(1, 3, 4, 1, 1)), histCov, 0, histDesc),
 			h("cont.H_Hist", noAs2(hist(2, 2, 2, 0, 1)), noAs2(hist(2, 2, 4, 1, 1)), histCov, 0, histDesc),
 			h("cont.H_Hist", noAs2(hist(4, 2, 3, 1, 1)), noAs2(hist(4, 2, 4, 2, 1)), histCov, 20, histDesc),
+			h("cont.H_FuncKinds", map[string]int{"order_schemes": 1}, map[string]int{"order_schemes": 2}, []string{"resolved"}, 20, "two registrations under two names whose constructors are function values of one kind {top-level functions, closures of one //go:noinline factory, method values of one method, two generic instantiations, reflect.MakeFunc functions, closures consuming a MakeFunc-built dependency of another signature, one generic instantiation twice} x lifetime x registration order: each identity must be produced by exactly the function value registered for it"),
 		}},
 		propertySpec{ID: "C07", Harnesses: []harnessSpec{
 			h("cont.H_Build", bld(0, 3, 1), bld(0, 3, 2), append([]string{"model_conflict"}, buildCov...), 30, buildDesc),
